@@ -417,5 +417,68 @@ theorem assignAll_hasKey_iff (s0 cutoff maxcoord : Rat) (pool1 : List TVert) (k 
       rw [ih, C12.set_fresh _ _ _ hk', hasKey_append, List.map_cons, List.mem_cons]
       tauto
 
+/-! ### small motions, whole list; series -/
+
+theorem assignAll_small_list (s0 cutoff maxcoord : Rat) (pool1 pool0 : List TVert) (succ : Id → Id)
+    (hnd1 : (pool1.map (·.id)).Nodup)
+    (hinj : ∀ a ∈ pool0, ∀ b ∈ pool0, succ a.id = succ b.id → a.id = b.id)
+    (hsucc : ∀ a ∈ pool0, ∃ w ∈ pool1, w.id = succ a.id ∧
+        (∀ u ∈ pool1, u.id ≠ w.id → distSq w.p a.p < distSq u.p a.p) ∧
+        (∃ s ∈ spreads s0 cutoff 64, distSq w.p a.p < (s * maxcoord) * (s * maxcoord))) :
+    ∀ (rest : List TVert) (m : StepMap), (∀ a ∈ rest, a ∈ pool0) → (rest.map (·.id)).Nodup →
+      (∀ e ∈ m, ∃ a ∈ pool0, e = (a.id, some (succ a.id))) →
+      (∀ a ∈ rest, m.hasKey a.id = false) →
+      assignAll s0 cutoff maxcoord pool1 rest m = m ++ rest.map (fun a => (a.id, some (succ a.id))) := by
+  intro rest
+  induction rest with
+  | nil => intro m _ _ _ _; simp [assignAll]
+  | cons v0 rest ih =>
+    intro m hsub hnd hm hfresh
+    have hv0 : v0 ∈ pool0 := hsub v0 (by simp)
+    have hsub' : ∀ a ∈ rest, a ∈ pool0 := fun a ha => hsub a (List.mem_cons_of_mem _ ha)
+    have hk' : m.hasKey v0.id = false := hfresh v0 (by simp)
+    simp only [List.map_cons, List.nodup_cons] at hnd
+    simp only [assignAll, hk', Bool.false_eq_true, if_false]
+    obtain ⟨w, hw, hwid, hnear, hrad⟩ := hsucc v0 hv0
+    have hfree : some w.id ∉ m.values := by
+      intro hin
+      simp only [StepMap.values, List.mem_map] at hin
+      obtain ⟨e, he, he2⟩ := hin
+      obtain ⟨a, ha, rfl⟩ := hm e he
+      simp only [Option.some.injEq] at he2
+      have := hinj a ha v0 hv0 (by rw [he2, hwid])
+      have hkk := C12.alGet?_isSome_of_mem _ _ _ he
+      rw [this] at hkk
+      simp [StepMap.hasKey, hkk] at hk'
+    obtain ⟨b, hb, hbid⟩ := C12.findBest_small s0 cutoff maxcoord v0.p pool1 m.values w hnd1 hw hfree hnear hrad
+    rw [C12.set_fresh _ _ _ hk', hb]
+    simp only [Option.map_some, hbid, hwid]
+    rw [ih _ hsub' hnd.2, List.append_assoc]
+    · rfl
+    · intro e he
+      rcases List.mem_append.1 he with he | he
+      · exact hm e he
+      · simp only [List.mem_singleton] at he
+        exact ⟨v0, hv0, he⟩
+    · intro a ha
+      have h1 := hfresh a (List.mem_cons_of_mem _ ha)
+      have hne : a.id ≠ v0.id := by
+        intro e; exact hnd.1 (List.mem_map.2 ⟨a, ha, e⟩)
+      have := hasKey_append m a.id v0.id (some (succ v0.id))
+      cases hh : StepMap.hasKey (m ++ [(v0.id, some (succ v0.id))]) a.id with
+      | false => rfl
+      | true =>
+        rcases this.1 hh with h | h
+        · rw [h1] at h; cases h
+        · exact absurd h hne
+
+theorem mapsOf_getD_eq (s0 cutoff maxDiff : Rat) (pools : List (List TVert)) (guesses : List StepMap) (i : Nat)
+    (hi : i < pools.length - 1) :
+    (mapsOf s0 cutoff maxDiff pools guesses).getD i none
+      = createMapping s0 cutoff maxDiff (pools.getD i []) (pools.getD (i + 1) []) (guesses.getD i []) := by
+  unfold mapsOf
+  rw [List.getD_eq_getElem?_getD, List.getElem?_map, List.getElem?_range hi]
+  rfl
+
 end C12m
 end Forsys
